@@ -199,8 +199,12 @@ def run_ellipse(c, res):
     if c.get('tier') == 'thorough':
         pts += [(x + 0.5, y + 0.25) for x in range(4) for y in range(4)]
     vals = [[10.0 ** x, 10.0 ** y] if log else [float(x), float(y)] for x, y in pts]
+    nonpos = []
+    if log:
+        # events without a log10 coordinate (zero / negative values) are not inside any ellipse in log space
+        nonpos = [[0.0, 100.0], [-3.0, 100.0], [100.0, 0.0], [100.0, -0.5], [0.0, 0.0], [-1.0, -1.0]]
     # third column so that channel selection matters
-    arr = np.array([[v[0], -7.0, v[1]] for v in vals])
+    arr = np.array([[v[0], -7.0, v[1]] for v in vals + nonpos])
     lay = dict(datatype='D', bits=[64] * 3, ranges=[100000] * 3, byteord='4,3,2,1',
                events=[[fcsgen.float_bits(x, 'D') for x in r] for r in arr.tolist()])
     buf, _ = fcsgen.build(lay)
@@ -251,6 +255,9 @@ def run_ellipse(c, res):
                             q = (xr / a) ** 2 + (yr / b) ** 2
                             exp.append(q <= 1)
                             amb.append(abs(q - 1) < 1e-9)
+                    if not cn.endswith('-int'):          # the integer containers hold the grid only
+                        exp += [False] * len(nonpos)
+                        amb += [False] * len(nonpos)
                     got = np.asarray(full.mask).tolist()
                     if len(got) == len(exp):
                         exp = [g if am else e for g, e, am in zip(got, exp, amb)]
